@@ -21,10 +21,9 @@ for f in sorted(os.listdir(os.path.join(VERIF, "harmless"))):
             print("%-36s patch does not apply" % f)
             continue
         res = pipeline.run_with_demotion(repo=scratch, probes=False)
-        lost = pipeline.hint_lost_fns(res)
         allf = [x for fl in res.get("failures", {}).values() for x in fl]
-        fails = sorted(set("%s@%s" % (x["name"], x["fn"]) for x in allf if x["fn"] not in lost))
-        hint_lost = sorted(set("%s@%s" % (x["name"], x["fn"]) for x in allf if x["fn"] in lost))
+        fails = sorted(set("%s@%s" % (x["name"], x["fn"]) for x in allf if not pipeline.explained_by_lost_hint(res, x)))
+        hint_lost = sorted(set("%s@%s" % (x["name"], x["fn"]) for x in allf if pipeline.explained_by_lost_hint(res, x)))
         status = "FALSE ALARM" if fails else ("undecided: %s %s %s" % (res.get("undecided") or "", res.get("demoted") or "", ("hint lost: %s" % hint_lost) if hint_lost else "") if (res.get("undecided") or res.get("demoted") or hint_lost) else "green")
         bad += bool(fails)
         print("%-36s %s %s" % (f, status, fails[:4]))
